@@ -169,6 +169,7 @@ func init() {
 	add("tplcell", c10J42, "", "data", c10WKeep)
 	c10Ops = append(c10Ops,
 		c10Op{name: "render the last template again in the same engine with the same TemplateData object, continue on the second result", kind: "tplagain"},
+		c10Op{name: "AddImageFromData(format \"bmp\": not a supported format, the call is refused)", kind: "reject"},
 		c10Op{name: "AddHeader(default)", kind: "hdr"},
 		c10Op{name: "AddListItem", kind: "list"},
 		c10Op{name: "work on another document (build, save, reopen, render as template)", kind: "other"},
@@ -291,6 +292,7 @@ type c10Inst struct {
 	tplData *document.TemplateData
 	again   int
 	cfgs    map[string]*document.ImageConfig
+	rej     int
 }
 
 func (i *c10Inst) Enabled(op int) bool {
@@ -310,6 +312,8 @@ func (i *c10Inst) Enabled(op int) bool {
 		return i.list < 1
 	case "tplagain":
 		return i.againOK()
+	case "reject":
+		return i.rej < 2
 	}
 	return true
 }
@@ -497,6 +501,12 @@ func (i *c10Inst) Apply(op int) (string, []rep.Violation) {
 			i.doc = d
 			i.again++
 			i.lastNT = len(i.pics) > 0
+		case "reject":
+			// a refused call must leave nothing behind (no counter, part, relationship or content type)
+			if _, e := i.doc.AddImageFromData(pngBytes(2, 1, 250), "x.bmp", document.ImageFormat("bmp"), 2, 1, nil); e == nil {
+				err = fmt.Errorf("an image of the unsupported format \"bmp\" was accepted")
+			}
+			i.rej++
 		case "hdr":
 			err = i.doc.AddHeader(document.HeaderFooterTypeDefault, "H")
 			i.hdr++
@@ -657,7 +667,7 @@ func (i *c10Inst) Key() string {
 	for _, p := range i.pics {
 		fmt.Fprintf(&b, "%s/%s/%d/%s/%s/%v;", p.Place, p.Via, p.Op, c10Hash(p.Payload), p.lived(), p.OffAtAdd)
 	}
-	fmt.Fprintf(&b, "|r%d h%d l%d last=%v first=%v again=%v/%d|", i.reop, i.hdr, i.list, i.lastKind == "reopen", i.steps == 0, i.againOK(), i.again)
+	fmt.Fprintf(&b, "|r%d h%d l%d last=%v first=%v again=%v/%d rej=%d|", i.reop, i.hdr, i.list, i.lastKind == "reopen", i.steps == 0, i.againOK(), i.again, i.rej)
 	// the caller's configuration objects as they are now (a library that writes into them changes later calls)
 	ck := make([]string, 0, len(i.cfgs))
 	for k, c := range i.cfgs {
